@@ -231,7 +231,9 @@ static void check_iso(enum aws_date_format fmt) {
     else CANARY("ISO Z or zero offset");
     if (g_len == AWS_DATE_TIME_STR_MAX_LEN) CANARY("ISO 100 bytes (long fraction)");
 }
-void h_iso_explicit(void) { check_iso(nondet_bool() ? AWS_DATE_FORMAT_ISO_8601 : AWS_DATE_FORMAT_ISO_8601_BASIC); }
+/* the format selector is a constant per harness (three units) */
+void h_iso_ext(void) { check_iso(AWS_DATE_FORMAT_ISO_8601); }
+void h_iso_basic(void) { check_iso(AWS_DATE_FORMAT_ISO_8601_BASIC); }
 void h_iso_auto(void) { check_iso(AWS_DATE_FORMAT_AUTO_DETECT); }
 
 /* ================================================================== RFC 822 ========================================
